@@ -347,6 +347,21 @@ def guard_states(e, test, st):
     return out
 
 
+def skolemize(f):
+    """positive existential quantifiers at the top of a formula (through conjunctions) replaced by fresh constants"""
+    consts = []
+
+    def walk(g):
+        if z3.is_and(g):
+            return z3.And(*[walk(c) for c in g.children()])
+        if z3.is_quantifier(g) and g.is_exists():
+            cs = [fresh('w_' + g.var_name(k).replace('?b', ''), g.var_sort(k)) for k in range(g.num_vars())]
+            consts.extend(cs)
+            return walk(z3.substitute_vars(g.body(), *reversed(cs)))
+        return g
+    return walk(f), consts
+
+
 class PrangeCtx:
     """footprint discipline for one prange loop.
     writes = {array name: (idxvars, predicate over t and idxvars)}: every store of iteration t into a shared
@@ -397,8 +412,18 @@ class PrangeCtx:
                          *[z3.And(q >= 0, q < ln) for q, ln in zip(qs, a.shape)])
             sub = St(st.env, st.heap, list(self.entry.pc))
             sub.pc.append(hyp)
-            e.oblige(sub, 'prange_disjoint', z3.Not(z3.And(p1, p2)), self.node,
-                     label=f'loop{self.k}: footprints of distinct iterations on {nm} are disjoint')
+            s1, c1 = skolemize(p1)
+            s2, c2 = skolemize(p2)
+            if c1 or c2:
+                # footprints given by existential witnesses (the cell is the destination of SOME own element): assume both with fresh
+                # witnesses, instantiate the universal hypotheses (injectivity lemmas) at them, and derive a contradiction
+                sub.pc += [s1, s2]
+                e.instantiate_at(sub, c1 + c2)
+                e.oblige(sub, 'prange_disjoint', z3.BoolVal(False), self.node,
+                         label=f'loop{self.k}: footprints of distinct iterations on {nm} are disjoint')
+            else:
+                e.oblige(sub, 'prange_disjoint', z3.Not(z3.And(p1, p2)), self.node,
+                         label=f'loop{self.k}: footprints of distinct iterations on {nm} are disjoint')
 
     def view_rel_index(self, arr, a0, idxs):
         """index of the accessed cell relative to the array as named at loop entry (a0)"""
